@@ -119,7 +119,10 @@ func famRegs3(r *rng) []string {
 		"for abs = 2 { for max = 2 { print(1) } }; println(sv(catch(abs(-2))))",
 		// the name of the function being run (repo fix 0f85325)
 		"func fo(){ for fo = 3 { print(len(sv(catch(fo + 1)))) }; 1 }; println(fo())",
-		"func fp(n){ s = 0; for fp = n { s = s + 1 }; s }; println(fp(3), fp(2))"))
+		"func fp(n){ s = 0; for fp = n { s = s + 1 }; s }; println(fp(3), fp(2))",
+		// two parameters of one name: the last one wins (repo fix bbcef1a)
+		"func dp(a, a){ a }; println(dp(1, 2), ((x, y, x) => [x, y])(1, 2, 3))",
+		"func dq(a, b, a, b){ a = a + b; [a, b] }; println(dq(1, 2, 3, 4), dq(1, \"s\", 3, 4), dq(1, 2, \"t\", 4))"))
 	// a long session of top-level loops: every exit, more than 8 in a row, one input each or all in one
 	nl := 20 + r.intn(31)
 	var loops []string
